@@ -70,3 +70,33 @@ def lemma_family_budget():
 
 
 R.lemmas.append(("phase.py:L#family-coverage-budget", ["C07"], lemma_family_budget))
+
+
+def CROSSCHECK():
+    from vcgen.crosscheck import Case
+
+    def mk(inp):
+        from whatshap.coverage import CovMonitor
+        c = CovMonitor(len(inp["self"]["coverage"]))
+        c.coverage = list(inp["self"]["coverage"])
+        return c
+
+    def gen(rng):
+        cov = [rng.randint(0, 4) for _ in range(rng.randint(0, 7))]
+        b = rng.randint(-1, len(cov) + 1)
+        return dict(self={"__class__": "CovMonitor", "coverage": cov}, begin=b, end=rng.randint(b - 1, len(cov) + 2))
+
+    def real_max(inp):
+        try:
+            return ("ok", mk(inp).max_coverage_in_range(inp["begin"], inp["end"]), {})
+        except Exception as e:      # noqa: BLE001
+            return ("raise", type(e).__name__)
+
+    def real_add(inp):
+        c = mk(inp)
+        try:
+            c.add_read(inp["begin"], inp["end"])
+        except Exception as e:      # noqa: BLE001
+            return ("raise", type(e).__name__)
+        return ("ok", None, {"self": {"coverage": c.coverage}})
+    return [Case("CovMonitor.max_coverage_in_range", gen, real_max, n=120), Case("CovMonitor.add_read", gen, real_add, n=120)]
